@@ -87,9 +87,12 @@ class FnLower:
         d = self.unwind_to(stop)
         if d:
             sv = self.tmp('_sv')
-            self.emit('{ int %s = vp_exc; vp_exc = 0; vp_unwinding++;' % sv)
+            # units that set `unwinding_ghost` keep the ghost flag behind std::uncaught_exception(); the others do not write it (their
+            # function contracts have explicit frames), there std::uncaught_exception() is constantly false
+            uw = bool(self.L.cfg.get('unwinding_ghost'))
+            self.emit('{ int %s = vp_exc; vp_exc = 0;%s' % (sv, (' int %s_u = vp_unwinding; vp_unwinding = 1;' % sv) if uw else ''))
             for s in d: self.emit('  ' + s)
-            self.emit('  vp_unwinding--; vp_exc = %s; }' % sv)
+            self.emit('  %svp_exc = %s; }' % (('vp_unwinding = %s_u; ' % sv) if uw else '', sv))
         if target is not None:
             self.emit('goto %s;' % self.scopes[target].handler)
         else:
